@@ -42,12 +42,12 @@ def wrap(V, kind, inner, level):
     if kind in ('field', 'optional', 'union'):
         return inner
     if kind in ('list', 'tuple'):
-        top = 2 if V.thorough else 1
+        top = 2 if V.thorough and level == 1 else 1
         idx = V.int('idx%d' % level, 0, top)
         n = 0
         while n < top and not (idx == n):
             n += 1
-        seq = [filler] * n + [inner] + ([filler] if V.thorough and V.bool('tail%d' % level) else [])
+        seq = [filler] * n + [inner] + ([filler] if V.thorough and level == 1 and V.bool('tail%d' % level) else [])
         return seq if kind == 'list' else tuple(seq)
     key = V.str('key%d' % level, 1, 97, 98)       # '', 'a' or 'b': symbolic, so `if route:` is a solver decision
     if kind == 'dict':
@@ -103,7 +103,7 @@ for _k in KINDS:
     ob('exact/' + _k, marks=['accept', 'reject'], budget=(60, 400), per_path=(15, 30),
        bounds='route kind %s; chain of D data classes (D=4 quick (3 for dictlist), 5 thorough) each with Options(max_depth=m); m in 1..D+1 '
               'and the input depth d in 1..D are solver integers; the position of the nested value at every level is '
-              'solver-chosen: list/tuple index 0..1 (thorough: 0..2 + optional trailing element), mapping key a symbolic string of '
+              'solver-chosen: list/tuple index 0..1 (thorough: 0..2 + optional trailing element at the outermost level), mapping key a symbolic string of '
               'length <= 1 over {a,b} (includes the empty key); the innermost node provides a field, nothing, or only an unknown key; accepted <=> d <= m' % _k,
        out='depths > 5; max_depth <= 0 (documented as "no limit")')((lambda k: lambda V: _exact(V, k))(_k))
 
@@ -161,7 +161,7 @@ def _self_ref_exact(V, m):
     cls = self_cls(m)
     x = V.pick('leaf', [{'v': 1}, {'unknown': 1}])
     for level in range(d - 1, 0, -1):
-        k = V.pick('route%d' % level, ['c', 'kids0', 'kids1', 'key_empty', 'key_k', 'alt'] if level <= 2 or V.thorough
+        k = V.pick('route%d' % level, ['c', 'kids0', 'kids1', 'key_empty', 'key_k', 'alt'] if level <= (3 if V.thorough else 2)
                    else ['c', 'kids0', 'key_empty'])
         y = {'v': level}
         if k == 'c':
@@ -194,7 +194,7 @@ for _m in (1, 2, 3, 4, 5):
        out='cycles longer than 3')((lambda m: lambda V: _cyclic(V, m))(_m))
     ob('self-ref/m%d' % _m, marks=['accept', 'reject'] if _m < 5 else ['accept'], budget=(60, 300),
        bounds='the same self-referential Schema with max_depth=%d: depth d in 1..5 (6 thorough) and a solver-picked '
-              'route per level (6 routes at the two outer levels, 3 below; thorough: 6 everywhere); accepted <=> d <= m'
+              'route per level (6 routes at the two (thorough: three) outer levels, 3 below); accepted <=> d <= m'
               % _m, out='depth > 6')((lambda m: lambda V: _self_ref_exact(V, m))(_m))
 
 
